@@ -36,7 +36,7 @@ func FuzzRT(f *testing.F) {
 	// only discarded executions. Seed with deterministic pseudo-random buffers
 	// of several sizes (sha256 chains; no RNG, no clock).
 	for i := 0; i < 24; i++ {
-		f.Add(seedBytes(i, 512<<(i%4)))
+		f.Add(seedBytes(i, (32<<10)<<(i%4)))
 	}
 	f.Fuzz(rapid.MakeFuzz(func(rt *rapid.T) {
 		c := GenCase(rt, prof)
